@@ -28,11 +28,6 @@ P = "jsontext"
 def obligations(tier):
     q = tier == "quick"
     L = []
-    if os.environ.get("C12_PROBE"):
-        import json
-        a = json.loads(os.environ["C12_PROBE"])
-        L.append(ob("probe", P, a[0], a[1:], covers=["accept"]))
-        return L
 
     def fmt(tag, n, alpha, tmpl, on, off, sym, indent=0, covers=("accept", "reject")):
         L.append(ob("format/%s/on=%d/off=%d/sym=%d/indent=%d" % (tag, on, off, sym, indent), P, "VerifC12Format", [n, alpha, tmpl, on, off, sym, indent], covers=list(covers)))
@@ -111,7 +106,7 @@ def obligations(tier):
     wrap("tmpl/3", 0, 0, '{"?":1, "?":"?"}' if q else '{"?":?, "?":"?"}', 2, 0, 0, DUP | (0 if q else CINT | UTF8))
     if not q:
         wrap("tmpl/4", 0, 0, ' [ {"?":?,"a":[?]} , 1 ] ', 1, 0, 0, SPCOM | MULTI, 1)
-        wrap("tmpl/5", 0, 0, '{"??":1,"?":{"?":2}}', 2, 0, 0, DUP | UTF8)
+        wrap("tmpl/5", 0, 0, '{"??":1,"?":{"a":2}}', 2, 0, 0, DUP | UTF8)
     only = os.environ.get("VERIF_ONLY")  # development aid: run the obligations whose id contains this text
     if only:
         L = [o for o in L if only in o["id"]]
